@@ -59,7 +59,8 @@ struct Model {
 impl Model {
     fn blocks(&self, op: &Op, cap: usize) -> bool {
         match *op {
-            Op::Push(_, s) => self.bytes + s > cap && !self.closed,
+            // an item larger than the whole capacity is admitted once no bytes are queued
+            Op::Push(_, s) => self.bytes + s > cap && self.bytes > 0 && !self.closed,
             Op::Pull => self.items.is_empty() && !self.closed,
             _ => false,
         }
@@ -123,7 +124,8 @@ fn replay(ctx: &mut Ctx, path: &[usize]) -> Option<(Vec<usize>, Model, Vec<(usiz
                         }
                     }
                 };
-                let want = !m.closed && m.bytes + s <= cfg.cap;
+                let blocking_push = matches!(op, Op::Push(..));
+                let want = !m.closed && (m.bytes + s <= cfg.cap || (blocking_push && m.bytes == 0));
                 if accepted != want {
                     if m.closed {
                         fail("push_after_close_accepted", "a push after close was accepted".into(), step);
